@@ -1,6 +1,6 @@
 (** C09 - equality and ordering are coherent and numerically exact across types. *)
 From Cel.Model Require Import Compare.
-From Cel.Proofs Require Import CompareProofs.
+From Cel.Proofs Require Import CompareProofs FloatOrder.
 From Coq Require Import QArith.
 Open Scope Z_scope.
 
@@ -37,23 +37,26 @@ Theorem C09_antisym : forall a b,
   v_cmp b a = option_map CompOpp (v_cmp a b) /\ is_true (v_lt a b) = is_true (v_gt b a).
 Proof. intros; split; [apply cmp_antisym|apply lt_iff_gt]. Qed.
 
-(** Transitivity.  [_partial]: proved for int/uint mixed freely, for strings, and for
-    int/uint - double - int/uint chains (by the exact denotation).  Chains with two or three
-    doubles need the correctness of SpecFloat's comparison on canonical mantissas, which is not
-    proved here (SFcompare is in the trusted base); the correspondence run checks transitivity on
-    the implementation's own answers for all triples of the boundary set. *)
-Theorem C09_trans_partial : forall a b c,
-  v_cmp a b = Some Lt -> v_cmp b c = Some Lt ->
-  ((exists x y z, zkey a = Some x /\ zkey b = Some y /\ zkey c = Some z) \/
-   (exists s1 s2 s3, a = VStr s1 /\ b = VStr s2 /\ c = VStr s3) \/
-   (exists x z f, zkey a = Some x /\ b = VDbl f /\ zkey c = Some z)) ->
-  v_cmp a c = Some Lt.
-Proof.
-  intros a b c H1 H2 [(x & y & z & Ha & Hb & Hc)|[(s1 & s2 & s3 & -> & -> & ->)|(x & z & f & Ha & Hb & Hc)]].
-  - exact (trans_intlike a b c x y z Ha Hb Hc H1 H2).
-  - exact (trans_str s1 s2 s3 H1 H2).
-  - exact (trans_zdz a b c x z f Ha Hb Hc H1 H2).
-Qed.
+(** Transitivity of < wherever it is defined: numbers of the three kinds mixed freely (by the
+    exact denotation - for two doubles see [C09_exact_doubles]), strings, bools, durations,
+    timestamps.  [vvalid]: a double operand is an IEEE-754 double (SpecFloat's [valid_binary]);
+    every 64-bit pattern decodes to one ([C09_bits_valid]). *)
+Theorem C09_trans : forall a b c, vvalid a -> vvalid b -> vvalid c ->
+  v_cmp a b = Some Lt -> v_cmp b c = Some Lt -> v_cmp a c = Some Lt.
+Proof. exact cmp_trans. Qed.
+
+(** Comparisons among int, uint and double compare the numbers denoted - for every pair, two
+    doubles included: SpecFloat's IEEE comparison of valid doubles is the comparison of the
+    rationals m * 2^e they denote (sign, then exponent, then mantissa decide exactly as the
+    values do, because a valid mantissa has 53 bits unless the exponent is the smallest). *)
+Theorem C09_exact_doubles : forall a b da db, vvalid a -> vvalid b ->
+  den a = Some da -> den b = Some db ->
+  v_cmp a b = xcmp da db /\
+  v_eq a b = match xcmp da db with Some Eq => true | _ => false end.
+Proof. intros; split; [now apply cmp_exact_all|now apply eq_exact_all]. Qed.
+
+Theorem C09_bits_valid : forall bits, vvalid (VDbl (f64_of_bits bits)).
+Proof. exact bits_valid. Qed.
 
 (** Strings compare by code point (lexicographically). *)
 Theorem C09_string_codepoint_order : forall a b,
@@ -101,6 +104,12 @@ Theorem C09_max_intlike : forall l m,
   In m l /\ forall x, In x l -> le_or_eq (v_cmp x m).
 Proof. intros l m Hn Hall H. exact (max_intlike l m Hn Hall H). Qed.
 
+(** ... and for numbers of the three kinds mixed freely (no NaN): max returns an element that
+    bounds all the others. *)
+Theorem C09_max_numbers : forall l m, l <> [] -> Forall num_ok l -> pick_list Gt l = Ok m ->
+  In m l /\ forall x, In x l -> le_or_eq (v_cmp x m).
+Proof. exact max_numbers. Qed.
+
 (** Non-vacuity / boundary examples (the defects this property found are fixed). *)
 Example C09_ex_2_53 : v_eq (VInt 9007199254740993) (VDbl (f64_of_Z 9007199254740992)) = false.
 Proof. reflexivity. Qed.
@@ -116,7 +125,10 @@ Print Assumptions C09_exact.
 Print Assumptions C09_trichotomy.
 Print Assumptions C09_le_iff.
 Print Assumptions C09_antisym.
-Print Assumptions C09_trans_partial.
+Print Assumptions C09_trans.
+Print Assumptions C09_exact_doubles.
+Print Assumptions C09_bits_valid.
+Print Assumptions C09_max_numbers.
 Print Assumptions C09_string_codepoint_order.
 Print Assumptions C09_list_map_eq.
 Print Assumptions C09_unrelated.
